@@ -1,3 +1,4 @@
+import QuillModel.Backend.FlushGate
 import QuillModel.Backend.CtxDrain
 import QuillModel.Backend.ThreadProofs
 import QuillModel.Backend.CtxQuiet
@@ -116,26 +117,28 @@ theorem C20_idle_poll_reclaims (s0 : BSt) (h0 : CtxFresh s0) (ops : List Op)
   have hsp : CInv sp := hs
   have hinj := runInj_ok CInv_closed table
   have hid := CInv_idleState hinj sp hsp
-  have hs'eq : s' = cleanupLoggers (runInj table) (cleanupContexts (allEmpty (idleState (runInj table) sp)).1) := by
+  have hs'eq : s' = cleanupLoggers (runInj table) (preEraseFlush (cleanupContexts (allEmpty (idleState (runInj table) sp)).1)) := by
     show (applyOp s (.poll table)).1 = _
     have hap : applyOp s (.poll table) = if s.backendGone then (s, "noop") else (poll (runInj table) sp, "ev") := rfl
     rw [hap, hg]
     exact poll_idle_eq (runInj table) sp hp he
   have hval := drained_all_valid _ hid hnw he
   have hq := runInj_quiet9 table h9
-  obtain ⟨f1, f2, _⟩ := cleanupLoggers_frame (runInj table) hq (cleanupContexts (allEmpty (idleState (runInj table) sp)).1)
-  obtain ⟨g1, g2⟩ := cleanupLoggers_fail (runInj table) hq (cleanupContexts (allEmpty (idleState (runInj table) sp)).1)
+  obtain ⟨f1, f2, _⟩ := cleanupLoggers_frame (runInj table) hq (preEraseFlush (cleanupContexts (allEmpty (idleState (runInj table) sp)).1))
+  obtain ⟨g1, g2⟩ := cleanupLoggers_fail (runInj table) hq (preEraseFlush (cleanupContexts (allEmpty (idleState (runInj table) sp)).1))
+  have hsol := preEraseFlush_sol (cleanupContexts (allEmpty (idleState (runInj table) sp)).1)
+  have hcore := core_of_stripOut (preEraseFlush_strip (cleanupContexts (allEmpty (idleState (runInj table) sp)).1))
   intro i hi
   rw [hs'eq] at hi ⊢
-  rw [f1] at hi
+  rw [f1, hsol.registry] at hi
   rcases hval i hi with hv | hu
   · left
     rw [← valid_core] at hv ⊢
     unfold Core.valid at hv ⊢
-    rw [f2]; exact hv
+    rw [f2, hcore]; exact hv
   · right
     unfold Unreported at hu ⊢
-    rw [g1, g2]; exact hu
+    rw [g1, g2, hsol.cfg, hsol.th]; exact hu
 
 /-- **Retained contexts = live threads that logged.** In the situation of `C20_idle_poll_reclaims`, once no
     registered context is left with an unreported failure counter (in particular with a blocking queue whose
@@ -196,7 +199,7 @@ theorem C20_quiet_idle_poll_retains_live (s0 : BSt) (h0 : CtxFresh s0) (ops : Li
   have hs : CInv s := CInv_runOps s0 h0.inv ops
   have hsp : CInv sp := hs
   have hinjC := runInj_nil_ok CInv_closed.toClosedB
-  have hs'eq : s' = cleanupLoggers (runInj []) (cleanupContexts (allEmpty (idleState (runInj []) sp)).1) := by
+  have hs'eq : s' = cleanupLoggers (runInj []) (preEraseFlush (cleanupContexts (allEmpty (idleState (runInj []) sp)).1)) := by
     show (applyOp s (.poll [])).1 = _
     have hap : applyOp s (.poll []) = if s.backendGone then (s, "noop") else (poll (runInj []) sp, "ev") := rfl
     rw [hap, hg]
